@@ -328,3 +328,49 @@ def sentinel_rule(ctx, rule, why):
                         n += 1
                         ctx.ok(rule, f'{site(f, c)} {fld}', 'absent -> None')
     return n
+
+
+def selecting_keys(repo):
+    """{key: (function, node)}: configuration keys a parameter class reads with kwargs.get('<key>') (no default) into an attribute
+    that the same constructor then tests against None to choose what to compute (e.g. effective_area given -> gamma derived from it,
+    else the other way round)"""
+    out = {}
+    m = repo.module('gnpy.core.parameters')
+    for c in m.classes.values():
+        init = c.methods.get('__init__')
+        if init is None:
+            continue
+        got = {}
+        for n in ast.walk(init.node):
+            if isinstance(n, ast.Assign) and isinstance(n.targets[0], ast.Attribute) and isinstance(n.value, ast.Call) and \
+                    isinstance(n.value.func, ast.Attribute) and n.value.func.attr == 'get' and len(n.value.args) == 1 and \
+                    isinstance(n.value.args[0], ast.Constant) and isinstance(n.value.args[0].value, str):
+                got[ast.unparse(n.targets[0])] = (n.value.args[0].value, n)
+        for n in ast.walk(init.node):
+            if isinstance(n, ast.Compare) and len(n.ops) == 1 and isinstance(n.ops[0], (ast.Is, ast.IsNot)) and \
+                    isinstance(n.comparators[0], ast.Constant) and n.comparators[0].value is None and ast.unparse(n.left) in got:
+                k, node = got[ast.unparse(n.left)]
+                out.setdefault(k, (init, node))
+    return out
+
+
+def selecting_defaults_rule(ctx, rule, why):
+    """the library loader classes (gnpy/tools/json_io.py `default_values`) leave every such key at None: a concrete library default
+    would always be `given` and the constructor's other branch (the value derived from what the user did give) could never run"""
+    from .rules.common import site
+    repo = ctx.repo
+    keys = selecting_keys(repo)
+    n = 0
+    for c in repo.module('gnpy.tools.json_io').classes.values():
+        dv = c.class_assigns.get('default_values')
+        if not isinstance(dv, ast.Dict):
+            continue
+        for k, v in zip(dv.keys, dv.values):
+            if isinstance(k, ast.Constant) and k.value in keys:
+                n += 1
+                g, node = keys[k.value]
+                ctx.check(rule, f'{c.module.rel}:{v.lineno} {c.qual}.default_values[{k.value!r}]', isinstance(v, ast.Constant) and v.value is None,
+                          f'{c.qual}|selecting-default|{k.value}',
+                          f"the library default of '{k.value}' is {ast.unparse(v)}, but {g.qual} decides on `{k.value} is None` what to derive "
+                          f'from what: with a concrete default the user\'s other parameter is ignored: {why}')
+    return n
